@@ -227,7 +227,10 @@ def run(ctx):
                        "templates); inputs vary in SHAPE across goroutines (AD nil / empty / bytes, message length classes, JWT type header "
                        "absent / 3 values and different claims - the returned token is decoded by the spec (JWS.tla): header typ and payload "
                        "must be the caller's); every randomized producing call has its own distinguishable input; streams are written in "
-                       "chunks with scheduling points and half of them closed twice; registry histories: random windows of <= 6 concurrent Register/Get/KmsRegister/"
+                       "chunks with scheduling points and half of them closed twice; a SHARED-BUFFER phase in every scenario: all goroutines "
+                       "pass the same message buffers (7 / 16 / 40 bytes) and shared AD buffers to the producing operations at once, "
+                       "results judged against Alone, all shared input buffers checked intact afterwards; keyset derivation for all 8 "
+                       "derivable key types with distinct salts on a shared deriver and on derivers built per call; registry histories: random windows of <= 6 concurrent Register/Get/KmsRegister/"
                        "KmsGet/KmsClear calls on harness-owned type URLs and clients; all runs under the Go race detector")
     ctx.assumptions += ["schedules are sampled by the Go scheduler (several GOMAXPROCS values / seeds), not enumerated",
                         "the no-data-race clause is decided by the Go race detector attached to the conformance runs, not by TLC",
